@@ -125,8 +125,8 @@ PROPS['C11'] = {
 PROPS['C03'] = {
     'title': 'Listener management and dispatch are thread-safe and linearizable',
     'level': 'exploration',
-    'parts': [{'src': 'harness/slist.cpp', 'prefix': 'C03/', 'variants': ['g17'], 'defs': ['VERIF_SUB=%d' % i]} for i in range(5)],
-    'rule': 'stateless DFS over all schedules of generated configurations (2 threads x 1 op: all pairs; 3 threads x 1 op: triples with a traversal or two operations on the shared handle h1; 2 threads x 2 ops) over {append, prepend, insert before h1, remove h1, remove h2, ownsHandle h1, empty, invoke, forEach; dispatcher: + appendListener/dispatch/hasAnyListener on a second event created concurrently} on a shared initial list [0,1,2]; oracle: brute-force linearizability of all non-traversal calls + final order, per-traversal rules, destructive probe after join, deadlock, HB race detector on the map, ASan/UBSan; distinct = distinct per-execution outcome hashes',
+    'parts': [{'src': 'harness/slist.cpp', 'prefix': 'C03/', 'variants': ['g17'], 'defs': ['VERIF_SUB=%d' % i]} for i in range(7)],
+    'rule': 'stateless DFS over all schedules of generated configurations (2 threads x 1 op: all pairs; 3 threads x 1 op: triples with a traversal or two operations on the shared handle h1; 2 threads x 2 ops) over {append, prepend, insert before h1, remove h1, remove h2, ownsHandle h1, empty, invoke, forEach; dispatcher: + appendListener/dispatch/hasAnyListener on a second event created concurrently} on a shared initial list [0,1,2]; oracle: brute-force linearizability of all non-traversal calls + final order, per-traversal rules, destructive probe after join, deadlock, HB race detector on the map, ASan/UBSan; distinct = distinct per-execution outcome hashes; plus STATEFUL units (C03/all-interleavings/...): ALL interleavings of the same configurations without a preemption bound, pruned by a visited set over global states (list/map structure, mutex owners, per-thread operation index + observation hash into which the whole shared-structure hash is mixed at the start of every atomic block, recorded call results and their order)',
     'assumptions': S_ASSUME + ['CallbackList head/tail/links are ordinary memory: a removed lock shows through the mid-critical-section hook points as a lost update (behavioural oracle), not through the race detector'],
     'bounds': {'quick': 'list+VMutex bound 2; SpinLock and dispatcher (std::map / std::unordered_map through the Map policy) bound 1; collision-rich subset of the 2x2 and 3x1 configurations', 'thorough': 'bound 3 (list+VMutex) / 2 (others); all configurations'},
     'deadline': {'quick': 170, 'thorough': 1700},
